@@ -379,7 +379,10 @@ Inductive hkind :=
 | KDodir
 | KAlter                     (* docompress dostrip *)
 | KHasVersion | KBestVersion
-| KEapply.
+| KEapply
+| KKeepdir (stub : str)      (* keepdir: dodir + an empty file <stub> in every directory *)
+| KEnv.                      (* NOT a pkgcore helper: the ebuild itself changing the image between two
+                                helper calls (harness pseudo-helper "c32env": rmtree/mkfile/mkdir PATH) *)
 
 Definition err1 (m : str) : hres := HCmdErr 1 m.
 Definition E (s : String.string) : str := lit s.
@@ -652,6 +655,59 @@ Section Bodies.
     | None => if existsb (is_dir_src w) args then (HUnmodelled, w) else eapply_run args w
     end.
 
+  (* Keepdir.run: Dodir.run, then open(ED/<x>/<stub>, "w").close() for every target - the stub path
+     ignores --dest, and an OSError there is not caught (-> internal failure) *)
+  Fixpoint keep_stubs (stub : str) (xs : list str) (w : world) : hres * world :=
+    match xs with
+    | [] => (HNone, w)
+    | x :: r =>
+        let dir := comps (lstrip_sl x) in
+        let ok := match dir with
+                  | [] => true
+                  | _ => match img_get dir (w_img w) with Some (NDir _) => true | _ => false end
+                  end in
+        if negb ok then (HOther, w) else
+        match img_get (dir ++ [stub]) (w_img w) with
+        | Some (NDir _) => (HOther, w)
+        | Some (NFile _ m) => keep_stubs stub r (set_img w (img_set (dir ++ [stub]) (NFile 0 m) (w_img w)))
+        | None => keep_stubs stub r (set_img w (img_set (dir ++ [stub]) (NFile 0 420) (w_img w)))
+        end
+    end.
+  Definition body_keepdir (stub : str) (options args : list str) (w : world) : hres * world :=
+    match body_dodir options args w with
+    | (HNone, w1) => keep_stubs stub args w1
+    | r => r
+    end.
+
+  (* the environment pseudo-helper *)
+  Fixpoint is_prefix (p k : path) : bool :=
+    match p, k with
+    | [], _ => true
+    | x :: p', y :: k' => str_eqb x y && is_prefix p' k'
+    | _ :: _, [] => false
+    end.
+  Definition img_rmtree (p : path) (i : image) : image := filter (fun kv => negb (is_prefix p (fst kv))) i.
+  (* mkdir/mkfile are no-ops when a regular file sits on the way *)
+  Definition env_put (k : path) (v : node) (w : world) : hres * world :=
+    match mk_prefixes [] (removelast k) (img_rmtree k (w_img w)) with
+    | inl i' => (HNone, set_img w (img_set k v i'))
+    | inr _ => (HNone, w)
+    end.
+  Definition body_env (options args : list str) (w : world) : hres * world :=
+    match args with
+    | [op; p] =>
+        let k := comps p in
+        if is_nil k then (HUnmodelled, w)
+        else if str_eqb op (E "rmtree") then (HNone, set_img w (img_rmtree k (w_img w)))
+        else if str_eqb op (E "mkdir") then env_put k (NDir 493) w
+        else (HUnmodelled, w)
+    | [op; p; c] =>
+        let k := comps p in
+        if is_nil k || negb (str_eqb op (E "mkfile")) then (HUnmodelled, w)
+        else env_put k (NFile (fold_left (fun a ch => a * 10 + (ch - 48)) c 0) 420) w
+    | _ => (HUnmodelled, w)
+    end.
+
   Definition body (k : hkind) : list str -> list str -> world -> hres * world :=
     match k with
     | KInstall r de d => body_install r de d
@@ -660,6 +716,8 @@ Section Bodies.
     | KHasVersion => body_query false
     | KBestVersion => body_query true
     | KEapply => body_eapply
+    | KKeepdir stub => body_keepdir stub
+    | KEnv => body_env
     end.
 End Bodies.
 
@@ -808,6 +866,8 @@ Definition hkind_of (code : str) : hkind :=
   | [65] => KAlter                                        (* A *)
   | [72] => KHasVersion                                   (* H *)
   | [66] => KBestVersion                                  (* B *)
+  | [75] => KKeepdir (lit ".keep_cat_pn-0")               (* K  (the harness' package is cat/pn-1.0:0) *)
+  | [86] => KEnv                                          (* V *)
   | _ => KEapply                                          (* E *)
   end.
 Definition dec_node (s : str) : node :=
